@@ -8,6 +8,7 @@ shift nor an instant that moves with it (ISO year / week number, .year/.month/.d
 relativedelta(months|years), instant-vs-constant comparison).  If all decisions are invariant the shifted
 run takes the same decisions step by step and every produced instant moves by the offset.
 R14.2: every relativedelta(...) offset uses relative (plural) fields only; singular fields set an absolute calendar field.
+R14.3: the project end derived from a month / year frame must not anchor backward tasks (known finding F55).
 Not decided: the relation between two concrete runs; non-UTC zones (DST) are outside the property's premise.
 """
 from __future__ import annotations
@@ -24,7 +25,7 @@ META = {
                    "function; an obligation fails only when an explicitly non-invariant source (ISO week/year number, "
                    "calendar month/day/year, month/year deltas) reaches it.",
     "assumptions": ["UTC project (the property's premise): time-zone conversion is a fixed offset",
-                    "project duration in months/years only sizes the horizon (stored, never branched on)"],
+                    "project duration in months/years sizes the horizon; its use as the anchor of backward tasks without a deadline is reported by R14.3 (known finding F55)"],
 }
 
 SCOPE = [
@@ -125,3 +126,23 @@ def run(ctx: Ctx):
                        "the day of month / year of the start date, so a shifted project gets a different frame",
                        key=key_of("R14.2", fn, None, norm(c)[:60]))
     ctx.floor("R14.2", 8)
+    # ---------------------------------------------------------------- R14.3 the project end as an anchor (known finding F55)
+    # the declared end is start + <header duration>; with a duration in months / years that sum does not move by whole weeks when the
+    # start does.  It is harmless while the end only sizes the horizon, but backward-scheduled tasks without a deadline of their own
+    # are anchored AT it.
+    mb = ctx.repo.func("ModelBuilder.build")
+    month_frames = [c for c in own_nodes(mb) if isinstance(c, _a.Call) and norm(c.func).split(".")[-1] == "relativedelta"
+                    and any(k.arg in ("months", "years") for k in c.keywords)]
+    ts = ctx.repo.func("TaskScenario.schedule")
+    anchors = [n for n in own_nodes(ts) if isinstance(n, _a.Assign) and norm(n.targets[0]) == "latest_end"
+               and ("declaredEnd" in norm(n.value) or "project['end']" in norm(n.value).replace('"', "'"))]
+    if not anchors:
+        raise Inconclusive("TaskScenario.schedule: default deadline of backward tasks not found")
+    for n in anchors:
+        ok = not month_frames
+        ctx.ob("R14.3", f"{ts.qual}: default deadline {norm(n.value)[:50]} vs {len(month_frames)} month/year frame conversions", (ts, n), ok,
+               "the project end moves with the start by whole weeks" if ok else
+               "a `+Nm` / `+Ny` header makes the project end start + N calendar months: shifting the start by whole weeks moves the end by a "
+               "different amount, and backward-scheduled tasks without a deadline are anchored at that end",
+               key="R14.3|TaskScenario.schedule|default deadline from month frame")
+    ctx.floor("R14.3", 1)
